@@ -180,5 +180,10 @@ impl WideZ for Val {
 }
 
 fn main() {
+    // variables that size / interval literals might (wrongly) be expanded with
+    std::env::set_var("C20_UNIT", "kb");
+    std::env::set_var("C20_NUM", "10");
+    std::env::set_var("C20_EMPTY", "");
+    std::env::set_var("C20_SECS", "seconds");
     vh::main_loop(run);
 }
